@@ -237,8 +237,10 @@ CHECKS['C18'] = dict(
     text='Props/C18.lean: field_type_conversion (integers with every optional property, enumerations, reals, strings, '
          'static/dynamic arrays, structures, nested to any depth: convFt (r2 a) = r3 a), enum_mappings / enum_conversion / '
          'enum_implicit_* (values of a label in member order; implicit value = 0 or previous last value + 1), '
-         'v2_prefix_split, v2_file_prefix_no_trailing_underscore. Partial: the stream/metadata level of the conversion '
-         '(feature and default clock inference, $default-stream, options) is covered by correspondence and oracle only. '
+         'v2_prefix_split, v2_file_prefix_no_trailing_underscore, stream_conversion (a whole abstract data stream type: features '
+         'inferred from the reserved members, default clock from the property mappings, extra members in order, event '
+         'record types). Partial: the metadata level of the conversion (packet header features, clock renames, '
+         '$default-stream, options) is covered by correspondence and oracle only. '
          'Every run: Lean vs harness renderings of abstract field types; the node the real barectf 2 parser hands over vs '
          'Lean convert2 and the real effective document vs expand2 on generated barectf 2 documents (plain and with '
          'aliases, inheritance, inclusions); on the implementation: files generated from the barectf 2 document and from '
